@@ -28,7 +28,7 @@ def make_cmds(rnd, kind, S, params, tier):
 
 from props import gen_iters
 from props.subgen import Sub
-CFG = DC.Config("C13", TABLE_KINDS + ["XBW"], make_cmds, nsets=(10, 70), big=True,
+CFG = DC.Config("C13", TABLE_KINDS + ["XBW"], make_cmds, nsets=(10, 30), big=True,
                 components=[Sub(gen_iters, ["contig", "dup", "nocontig", "blocks", "control"])],
                 rule="extractTable of the 12 kinds that implement it must yield exactly numElements strings, the k-th being extract(k) "
                      "(= the sorted input for order-preserving kinds); every string iterator (table, prefix, substring) is drained "
